@@ -277,8 +277,14 @@ func (c12) Run(e *Env) {
 				if len(live) >= 4 {
 					old := live[0]
 					live = live[1:]
-					ch.UnbindLocalStream(old.li)
-					ch.UnbindRemoteStream(old.ri)
+					if cycle%3 == 0 {
+						// the application describes the stream it removes afresh (only the SSRC identifies it)
+						ch.UnbindLocalStream(&interceptor.StreamInfo{SSRC: old.li.SSRC})
+						ch.UnbindRemoteStream(&interceptor.StreamInfo{SSRC: old.ri.SSRC})
+					} else {
+						ch.UnbindLocalStream(old.li)
+						ch.UnbindRemoteStream(old.ri)
+					}
 				}
 				cw, crd, cli, cri := bindPair(50000+cycle, 90000+cycle)
 				// (which streams have gaps must not correlate with the instants at which timers fire)
